@@ -9,12 +9,9 @@ The inner transaction has NO rollback (D13).
 namespace Eru.Cluster
 variable {R : Type} [ResAlg R]
 
-/-- `doDeployOneWorkload` on node `n` with resources `r`; `decr`: also decrement the
-in-progress marker (create) or not (replace). Returns the new workload's id. -/
-def deployOne (n : String) (r : R) (decr : Bool) : M R Nat := do
-  let s ← getSt
-  let id := s.next
-  let ok ← attempt (txn
+/-- the transaction inside `doDeployOneWorkload`; `id` is the id the engine will hand out -/
+def deployTxn (n : String) (r : R) (decr : Bool) (id : Nat) : M R Unit :=
+  txn
     (do step "engineCreate" n (addCt ⟨id, n, false⟩)
         step "walLog:create-workload" n (walAdd "create-workload" n id))
     (do step "storeAddWorkload" n (fun s => (if decr then decrMarker n else fun x => x) (addWl ⟨id, n, r⟩ s))
@@ -22,14 +19,26 @@ def deployOne (n : String) (r : R) (decr : Bool) : M R Nat := do
         readStep "engineInspect" n)
     (some fun _ => do
         let s ← getSt
-        if (findCt s id).isSome then do       -- Go: workload.ID != ""
+        if s.next > id then do                -- Go: workload.ID != "" (engineCreate succeeded and consumed the id)
           step "storeRemoveWorkload" n (rmWl id)
           step "engineRemove" n (rmCt id)
-        else pure ()))
-  -- deferred: commit the create-workload event if it was logged
+        else pure ())
+
+/-- deferred in `doDeployOneWorkload`: commit the create-workload event if it was logged -/
+def commitCreated (n : String) (id : Nat) : M R Unit := do
   let s ← getSt
   if s.wal.contains ("create-workload", n, id) then
     let _ ← attempt (step "walCommit:create-workload" n (walRm "create-workload" n id))
+    pure ()
+  else pure ()
+
+/-- `doDeployOneWorkload` on node `n` with resources `r`; `decr`: also decrement the
+in-progress marker (create) or not (replace). Returns the new workload's id. -/
+def deployOne (n : String) (r : R) (decr : Bool) : M R Nat := do
+  let s ← getSt
+  let id := s.next
+  let ok ← attempt (deployTxn n r decr id)
+  commitCreated n id
   if ok then pure id else refuse
 
 def doReplaceWorkload (w : Wl R) : M R Nat := do
